@@ -76,3 +76,4 @@ Section Interp.
   Lemma unpatch_interp n p w : I n (Unpatch.run p) w = Done (inl tt) (on_st (unpatch_st p) w).
   Proof. destruct w as [s g]. apply run_simple_sound, unpatch_simple. Qed.
 End Interp.
+
